@@ -5,7 +5,7 @@ preprocessor (`gcc -E -C -P`: wat2c's helper macros I32_ROTL, I32_CLZ, … are e
 For every row function `<prefix>_f_<row>` the whole body is parsed (declarations skipped) with a small C parser:
     statements   R<k>.i32|i64 = e;   R_u8|R_u16|R_u32 = e;   return e;   return;   abort();   if (e) abort();  if (e) { … }
                  memcpy(&X, &<prefix>_memory[e], n);   memcpy(&<prefix>_memory[e], &X, n);
-    expressions  casts to (u)int8/16/32/64_t, unary - ~ !, * / % + - << >> < > <= >= == != & ^ | ?:, decimal constants,
+    expressions  casts to (u)int8/16/32/64_t, unary - ~ !, * / % + - << >> < > <= >= == != & ^ | && || ?:, decimal constants,
                  __builtin_clz/ctz/popcount(ll), parameters arg<i>, union registers R<k>.i32 / R<k>.i64, R_u8/16/32
 and printed as a Lean term of WaVerif.C03.CFunc (Model/C03CExpr.lean).  A function using any other form (floats, calls,
 labels …) is reported as `unmodelled` with the reason; nothing is guessed.
@@ -84,10 +84,11 @@ class P:
         a = self.binary(lvl + 1)
         while self.peek()[0] == "op" and self.peek()[1] in self.LEVELS[lvl]:
             op = self.eat()[1]
-            if op in ("||", "&&"):
-                raise Unmodelled("logical %s" % op)
             b = self.binary(lvl + 1)
-            a = "(.bin .%s %s %s)" % (self.OPN[op], a, b)
+            if op in ("||", "&&"):
+                a = "(.%s %s %s)" % ("lor" if op == "||" else "land", a, b)
+            else:
+                a = "(.bin .%s %s %s)" % (self.OPN[op], a, b)
         return a
 
     def unary(self):
